@@ -58,7 +58,10 @@ Two DIFFERENT changes (call them {pid}-{k1} and {pid}-{k2}) to the library's non
    (controller time zones, door names, IPv4-mapped / IPv6 addresses, equal port numbers), all stop-signal kinds, common
    network faults (silence, floods, streams across the deadline, refused / reset / closed / trickling / slowly connecting
    peers, ICMP errors), hash-colliding and carry-aliased inputs for caches, constants harvested from the source code,
-   results that are modified by the caller and re-read later, and slice arguments with spare capacity:
+   results that are modified by the caller and re-read later, slice arguments with spare capacity, input buffers that are
+   reused and changed in place, idle periods longer than any time constant in the source code, listener events interleaved
+   with requests, error-callback return values, pauses injected between the network driver and the decoding code, degenerate
+   timeouts, very long argument lists, numbers that wrap modulo 2^8..2^64, decoding into variables that were used before:
    look for what such testing still would NOT reach.
 
 Changes of earlier rounds - do NOT repeat these or close variants of them; find a different mechanism, a different
